@@ -67,6 +67,23 @@ Proof.
   rewrite Nat2Z.inj_succ, Z.div2_div. symmetry. apply Z.div2_bits. lia.
 Qed.
 
+(* the generated per-bit formulas of synthesize: bit i of a Const / of a reset value *)
+Lemma land1_shiftr c i : 0 <= i -> Z.land (Z.shiftr c i) 1 = b2z (Z.testbit c i).
+Proof.
+  intro Hi. change 1 with (Z.ones 1). rewrite Z.land_ones by lia. change (2 ^ 1) with 2.
+  rewrite <- Z.bit0_mod, Z.shiftr_spec by lia. rewrite Z.add_0_l. reflexivity.
+Qed.
+
+Lemma const_bit_spec c (i : nat) : negb (g_const_bit c (Z.of_nat i) =? 0) = Z.testbit c (Z.of_nat i).
+Proof. unfold g_const_bit. rewrite land1_shiftr by lia. destruct (Z.testbit c (Z.of_nat i)); reflexivity. Qed.
+
+Lemma synth_reset_spec rv (i : nat) :
+  synth_reset rv i = option_map (fun v => Z.testbit v (Z.of_nat i)) rv.
+Proof.
+  unfold synth_reset, g_reset_bit. destruct rv as [v|]; cbn [option_map]; [|reflexivity].
+  rewrite land1_shiftr by lia. destruct (Z.testbit v (Z.of_nat i)); reflexivity.
+Qed.
+
 Lemma map_nth_seq (l : list bool) : map (fun i => nth i l false) (seq 0 (length l)) = l.
 Proof.
   induction l as [|x t IH]; [reflexivity|].
@@ -434,7 +451,7 @@ Proof.
     + unfold base_val. rewrite E, Ek. reflexivity.
     + rewrite forallb_forall in Hconsts. specialize (Hconsts x Hx). rewrite Ek in Hconsts.
       apply inrangeb_spec in Hconsts. unfold width_of. rewrite E. assumption.
-    + intro i. unfold gbase. rewrite E, Ek. reflexivity.
+    + intro i. unfold gbase. rewrite E, Ek. apply const_bit_spec.
   - (* register *)
     unfold repr. unfold base_val. rewrite E, Ek.
     rewrite HR1 by (unfold is_reg_w, kind_of; rewrite E, Ek; reflexivity).
@@ -585,7 +602,7 @@ Proof.
   assert (Hb : forall i, ginit_reg nl regmap r i = Z.testbit (init_reg nl 0 regmap r) (Z.of_nat i)).
   { intro i. unfold ginit_reg, init_reg. destruct (assoc regmap r); [reflexivity|].
     unfold is_reg_w in Hr. destruct (kind_of nl r); try discriminate.
-    unfold synth_reset. destruct reset; cbn [option_map]; [reflexivity|].
+    rewrite synth_reset_spec. destruct reset; cbn [option_map]; [reflexivity|].
     rewrite Z.bits_0. reflexivity. }
   unfold bits_val. rewrite (map_ext _ _ Hb), map_testbit_of_Z, to_Z_of_Z, (wnat_width nl Hw).
   symmetry. apply Z.mod_small. exact Hl.
@@ -645,7 +662,7 @@ Lemma mem_map_lookup_in l m : In m l ->
   mem_map_lookup (MOrig m) (map (fun m => (mem_map_key m, MPost m)) l) = Some (MPost m).
 Proof.
   induction l as [|x r IH]; intro H; [contradiction|].
-  cbn [map mem_map_lookup mem_map_key memref_eqb].
+  unfold mem_map_key, g_mem_map_keyed_by_original. cbn [map mem_map_lookup memref_eqb].
   destruct (x =? m) eqn:E.
   - assert (x = m) by lia. subst. reflexivity.
   - apply IH. destruct H as [H|H]; [lia|assumption].
